@@ -75,6 +75,7 @@ type run struct {
 	ops     int
 	done    int // worker tasks finished
 	ntasks  int
+	direct  bool // workers call the *server.Server directly and a task shuts it down mid-run
 }
 
 type shutdowner struct {
@@ -260,6 +261,8 @@ func (r *run) checkOutcome(cm *callM, st capnp.Struct, err error) {
 	case cm.starts == 0:
 		if err == nil {
 			s.Fail("result_without_execution", "server.go:(*Server).start", fmt.Sprintf("call %d completed successfully although its implementation never ran", cm.id))
+		} else if !cm.cancelled && !r.srv[cm.srv].shutBegan {
+			s.Fail("delivered_never", "server.go:(*Server).start", fmt.Sprintf("call %d on server %d was never delivered (err=%v) although its context was not cancelled and the server was not shut down", cm.id, cm.srv, err))
 		}
 	case !cm.implDone:
 		s.Fail("completed_before_impl_returned", "server.go:(*Server).start", fmt.Sprintf("call %d completed (err=%v) while its implementation is still running", cm.id, err))
@@ -308,11 +311,18 @@ func (r *run) checkPiped(p *callM, err error, st capnp.Struct) {
 	r.checkOutcome(p, st, err)
 }
 
-type outstanding struct {
-	cm *callM
+// target is what a worker calls: a *capnp.Client on server A, or (direct
+// mode) the *server.Server itself, which another task shuts down at an
+// arbitrary moment while calls are being made, are queued behind the
+// admission gate or wait for a free slot.
+type target struct {
+	send    func(context.Context, capnp.Send) (*capnp.Answer, capnp.ReleaseFunc)
+	recv    func(context.Context, capnp.Recv) capnp.PipelineCaller
+	release func()
+	direct  bool
 }
 
-func (r *run) workerTask(id int, client *capnp.Client, nops int) {
+func (r *run) workerTask(id int, client target, nops int) {
 	s := r.s
 	var out []*callM
 	released := false
@@ -352,7 +362,7 @@ func (r *run) workerTask(id int, client *capnp.Client, nops int) {
 			cm := r.newCall(id, 0, r.pickFlags())
 			cm.invokeSeq = s.Seq()
 			s.Logf("task %d SendCall %d flags=%b", id, cm.id, cm.flags)
-			cm.ans, cm.rel = client.SendCall(cm.ctx, capnp.Send{
+			cm.ans, cm.rel = client.send(cm.ctx, capnp.Send{
 				Method:    capnp.Method{InterfaceID: ifaceID, MethodID: 0},
 				ArgsSize:  capnp.ObjectSize{DataSize: 16},
 				PlaceArgs: place(cm),
@@ -369,7 +379,7 @@ func (r *run) workerTask(id int, client *capnp.Client, nops int) {
 			place(cm)(args)
 			cm.invokeSeq = s.Seq()
 			s.Logf("task %d RecvCall %d flags=%b", id, cm.id, cm.flags)
-			client.RecvCall(cm.ctx, capnp.Recv{
+			client.recv(cm.ctx, capnp.Recv{
 				Method:      capnp.Method{InterfaceID: ifaceID, MethodID: 0},
 				Args:        args,
 				ReleaseArgs: func() {},
@@ -429,11 +439,11 @@ func (r *run) workerTask(id int, client *capnp.Client, nops int) {
 				out = append(out[:k], out[k+1:]...)
 				finish(cm)
 			}
-		case op == 7 && !released: // release our client early
+		case op == 7 && !released && !client.direct: // release our client early
 			if s.Choice("release-early", 3) == 0 {
 				released = true
 				s.Logf("task %d releases its client", id)
-				client.Release()
+				client.release()
 			}
 		}
 	}
@@ -441,16 +451,16 @@ func (r *run) workerTask(id int, client *capnp.Client, nops int) {
 		if s.Failed() {
 			return
 		}
-		if !released && s.Choice("release-before-drain", 4) == 0 {
+		if !released && !client.direct && s.Choice("release-before-drain", 4) == 0 {
 			released = true
 			s.Logf("task %d releases its client (before draining)", id)
-			client.Release()
+			client.release()
 		}
 		finish(cm)
 	}
 	if !released && !s.Failed() {
 		s.Logf("task %d releases its client", id)
-		client.Release()
+		client.release()
 	}
 	r.done++
 }
@@ -466,26 +476,72 @@ func (Engine) Run(t *testing.T, tape *simrt.Tape, opt worker.Options) *worker.Ou
 		mk := func(i int) *server.Server {
 			return server.New([]server.Method{{Method: capnp.Method{InterfaceID: ifaceID, MethodID: 0}, Impl: r.impl(i)}}, nil, shutdowner{r: r, m: r.srv[i]}, pol)
 		}
-		rootA := capnp.NewClient(mk(0))
+		srvA := mk(0)
+		rootA := capnp.NewClient(srvA)
 		r.clientB = capnp.NewClient(mk(1))
 		r.clientC = capnp.NewClient(mk(2))
 		r.ntasks = 1 + s.Choice("ntasks", 4)
+		totalOps := 0
 		for i := 0; i < r.ntasks; i++ {
 			i := i
 			c := rootA.AddRef()
 			nops := 2 + s.Choice("nops", 8)
-			s.Spawn(fmt.Sprintf("w%d", i), func() { r.workerTask(i, c, nops) })
+			totalOps += nops
+			s.Spawn(fmt.Sprintf("w%d", i), func() {
+				tg := target{send: c.SendCall, recv: c.RecvCall, release: c.Release}
+				if r.direct {
+					// the handle is given back at once: calls go to the Server itself
+					c.Release()
+					tg = target{send: srvA.Send, recv: srvA.Recv, release: func() {}, direct: true}
+				}
+				r.workerTask(i, tg, nops)
+			})
 		}
-		if s.Choice("root-release-early", 2) == 0 {
+		// (the mode is drawn here, before the first schedule point, so that
+		// tapes recorded before direct mode existed keep their meaning: 0 and
+		// 1 are the two client-mode variants)
+		mode := s.Choice("root-release-early", 4)
+		r.direct = mode >= 2
+		shutDone := !r.direct
+		if r.direct {
+			s.Probe("direct_mode")
+			k := s.Choice("shutdown-after-ops", totalOps+1)
+			s.Spawn("shutter", func() {
+				s.Block("shutter", func() bool { return r.ops >= k || r.done == r.ntasks })
+				for i, n := 0, s.Choice("shutter-yields", 6); i < n; i++ {
+					simrt.YieldAt("shutter")
+				}
+				m := r.srv[0]
+				if m.running > 0 {
+					s.Probe("shutdown_with_running_calls")
+				}
+				if m.running == m.maxConc {
+					s.Probe("shutdown_with_all_slots_busy")
+				}
+				m.shutBegan = true
+				s.Fault("direct_shutdown")
+				s.Logf("shutter: Server.Shutdown (running=%d)", m.running)
+				srvA.Shutdown()
+				s.Logf("shutter: Server.Shutdown returned (running=%d userShut=%d)", m.running, m.userShut)
+				if m.running != 0 {
+					s.Fail("shutdown_returned_early", "server.go:(*Server).Shutdown", fmt.Sprintf("Server.Shutdown returned while %d implementation(s) are still running", m.running))
+				}
+				if m.userShut != 1 {
+					s.Fail("shutdown_count", "server.go:(*Server).Shutdown", fmt.Sprintf("Server.Shutdown returned and the user's Shutdown ran %d times (want 1)", m.userShut))
+				}
+				shutDone = true
+			})
+		}
+		if mode == 0 {
 			simrt.YieldAt("main")
 			rootA.Release()
 			rootA = nil
 		}
-		s.Block("workers-done", func() bool { return r.done == r.ntasks })
+		s.Block("workers-done", func() bool { return r.done == r.ntasks && shutDone })
 		if s.Failed() {
 			return
 		}
-		if rootA != nil {
+		if rootA != nil && !r.direct {
 			rootA.Release()
 		}
 		// B may still be referenced by result messages that were released; drop our reference last
